@@ -96,6 +96,26 @@ W void w_ts_lock_use(void* o, ulong s, ulong a)
     void* p = l->allocate_node(s, a);
     l->deallocate_node(p, s, a);
 }
+W void w_ts_lock_move_use(void* o, ulong s, ulong a)
+{   // a proxy that is moved: the mutex stays locked until the *new* owner dies, the moved-from proxy releases nothing
+    using proxy = decltype(static_cast<t_ts*>(o)->lock());
+    alignas(proxy) unsigned char buf[sizeof(proxy)];
+    proxy* q;
+    {
+        auto l = static_cast<t_ts*>(o)->lock();
+        q = ::new (static_cast<void*>(buf)) proxy(static_cast<proxy&&>(l));
+    } // moved-from proxy destroyed here
+    void* p = (*q)->try_allocate_node(s, a); // noexcept members only: nothing unwinds past the placement-new'd proxy
+    if (p)
+        (*q)->deallocate_node(p, s, a);
+    (void)(*q)->max_node_size();
+    q->~proxy();
+}
+W void w_ts_lock_const_use(const void* o)
+{   // lock() on a const storage object
+    auto l = static_cast<const t_ts*>(o)->lock();
+    (void)l->max_node_size();
+}
 // 5 aligned_allocator
 using t_al = aligned_allocator<rec>;
 TRAITS(al, t_al)
